@@ -12,7 +12,7 @@ SEEDS=${@:-7777}
 for seed in $SEEDS; do
   for p in C04 C01 C02 C05 C06 C15 C03 C13 C10; do
     echo "=== $p seed=$seed $(date +%T)"
-    VERIF_SEED=$seed ./bin/check run $p --tier thorough 2>&1 | grep -vE "^  |^$|^Goroutine|^Previous|^Write at|^Read at|WARNING: DATA" | cut -c1-1500 | tail -25
+    VERIF_SEED=$seed ./bin/check run $p --tier thorough 2>&1 | grep -vE "^  |^$|^Goroutine|^Previous|^Write at|^Read at|WARNING: DATA|^.Log. " | cut -c1-1500 | tail -25
     echo "=== $p seed=$seed exit=${PIPESTATUS[0]}"
   done
 done
